@@ -196,6 +196,7 @@ def intrinsics():
 
     # ---- iterators
     I["core::iter::traits::collect::IntoIterator::into_iter"] = lambda ip, n, a: to_iter(a[0])
+    I["core::ops::range::RangeInclusive::<Idx>::new"] = lambda ip, n, a: A.Struct("core::ops::range::RangeInclusive", {"start": a[0], "end": a[1]})
     I[IT + "next"] = lambda ip, n, a: to_iter(a[0]).next()
     I[IT + "map"] = lambda ip, n, a: IterV(call_f(ip, a[1], [x]) for x in to_iter(a[0]))
     I[IT + "filter"] = lambda ip, n, a: IterV(x for x in to_iter(a[0]) if ip.truth(call_f(ip, a[1], [x])))
@@ -619,6 +620,17 @@ def string_intrinsics():
     I[STR + "ends_with"] = lambda ip, n, a: need_str(a[0]).endswith(need_str(a[1]))
     I[STR + "strip_prefix"] = lambda ip, n, a: some(need_str(a[0])[len(need_str(a[1])):]) if need_str(a[0]).startswith(need_str(a[1])) else none()
     I[STR + "strip_suffix"] = lambda ip, n, a: some(need_str(a[0])[:len(need_str(a[0])) - len(need_str(a[1]))]) if need_str(a[0]).endswith(need_str(a[1])) else none()
+    I[STR + "contains"] = lambda ip, n, a: need_str(a[1]) in need_str(a[0])
+    I[STR + "find"] = lambda ip, n, a: some(len(need_str(a[0])[:need_str(a[0]).index(need_str(a[1]))].encode())) if need_str(a[1]) in need_str(a[0]) else none()
+    def trim_matches(side):
+        def f(ip, n, a):
+            s, p = need_str(a[0]), need_str(a[1])
+            if len(p) != 1:      # a char or one-char &str pattern: repeated removal = strip of that character
+                raise A.Unsupported("trim_%s_matches with a pattern that is not one character" % side)
+            return s.rstrip(p) if side == "end" else s.lstrip(p)
+        return f
+    I[STR + "trim_end_matches"] = trim_matches("end")
+    I[STR + "trim_start_matches"] = trim_matches("start")
     I[STR + "to_string"] = lambda ip, n, a: need_str(a[0])
     I[STR + "to_owned"] = lambda ip, n, a: need_str(a[0])
     I[CH + "is_uppercase"] = lambda ip, n, a: need_str(a[0]).isupper()
